@@ -1,6 +1,12 @@
 ;@chunk core
 (declare-datatypes ((Any 0)) (((mkAny (tyOf Int) (refOf Int) (strOf String)))))
 (define-fun anyNil () Any (mkAny 0 0 ""))
+; canonical form of interface values as produced by boxing: strings carry no reference, everything else no string
+(define-fun anyWF ((x Any)) Bool
+  (and (>= (tyOf x) 0)
+       (=> (= (tyOf x) 1) (= (refOf x) 0))
+       (=> (not (= (tyOf x) 1)) (= (strOf x) ""))
+       (=> (= (tyOf x) 0) (= (refOf x) 0))))
 (define-fun go_div ((a Int) (b Int)) Int
   (ite (>= a 0) (ite (> b 0) (div a b) (- (div a (- b))))
                 (ite (> b 0) (- (div (- a) b)) (div (- a) (- b)))))
@@ -205,3 +211,18 @@
   :pattern ((kvFirstU ps k)))))
 (define-fun kvHas ((ps (Seq D_KeyValue)) (k String)) Bool (>= (kvFirstU ps k) 0))
 (define-fun kvGet ((ps (Seq D_KeyValue)) (k String)) String (KeyValue_Value (nth_D_KeyValue ps (kvFirstU ps k))))
+
+;@chunk hop hopHost hopPort viaPort
+; response next hop of a Via entry p (RFC 3261 18.2.2 / RFC 3581): received over sent-by host; numeric rport
+; (only honoured together with received, as the statement says) over the sent-by port; default port 5060
+; (5061 when the entry's transport is literally "TLS" - unobservable, TLS leads to a drop)
+(define-fun viaPort ((H_ViaParam_port (Array Int Int)) (H_ViaParam_Transport (Array Int String)) (p Int)) Int
+  (ite (not (= (select H_ViaParam_port p) 0)) (select H_ViaParam_port p)
+       (ite (= (select H_ViaParam_Transport p) "TLS") 5061 5060)))
+(define-fun hopHost ((H_ViaParam_Params (Array Int (Seq D_KeyValue))) (H_ViaParam_Host (Array Int String)) (p Int)) String
+  (ite (kvHas (select H_ViaParam_Params p) "received") (kvGet (select H_ViaParam_Params p) "received") (select H_ViaParam_Host p)))
+(define-fun hopPort ((H_ViaParam_Params (Array Int (Seq D_KeyValue))) (H_ViaParam_port (Array Int Int)) (H_ViaParam_Transport (Array Int String)) (p Int)) Int
+  (ite (and (kvHas (select H_ViaParam_Params p) "received") (kvHas (select H_ViaParam_Params p) "rport")
+            (atoiOk (kvGet (select H_ViaParam_Params p) "rport")))
+       (atoiVal (kvGet (select H_ViaParam_Params p) "rport"))
+       (viaPort H_ViaParam_port H_ViaParam_Transport p)))
